@@ -106,6 +106,8 @@ def a2(ctx):
     n = 0
     for m in STORE_MODULES + ("xandikos.store.config", "xandikos.store", "xandikos.store.index"):
         for fi in ctx.P.funcs_in_module(m):
+            if ctx.absorbed(fi):
+                continue
             sites = write_open_sites(ctx, fi)
             if not sites:
                 continue
